@@ -2,6 +2,9 @@
 # seeded_all.sh: apply every seeded change in turn, run the check of its property restricted to the job recorded in
 # meta.json, undo it; prints one line per change: CAUGHT / MISSED / BROKEN (exit 2 or patch does not apply)
 cd /verif
+# committed evidence only ever comes from the unchanged tree: keep it aside and put it back at the end
+keep=$(mktemp -d); cp evidence/*.json $keep/
+trap 'cp $keep/*.json /verif/evidence/; rm -rf $keep; git -C /repo checkout -- . 2>/dev/null' EXIT
 for d in seeded/*/; do
   id=$(basename $d)
   [ -f $d/patch.diff ] || continue
